@@ -172,6 +172,24 @@ for _pid, _x in EXTRA3.items():
     _c = CLAIMS[_pid]
     CLAIMS[_pid] = (_c[0], _c[1], _c[2] + _x, _c[3], _c[4])
 
+EXTRA4 = {
+    'C03': ' A fixed edge source (two rules of one policy on the same day, fixed RULES amounts outside the 4-bit field, a TO year beyond the one-byte year, the extreme SAVE values) is compiled in every run; generated policies include negative SAVE and named-rule eras with a plain FORMAT.',
+    'C04': ' The freshly compiled source has eras ending on the day of one of their rule transitions at a time given in another time frame (u / s) between the wall and universal readings of the transition, and contains the edge source; the Python sampler also probes both sides of every transition ZoneSpecifier lists.',
+    'C05': ' Manager-created zones are obtained by index, by name and by id and must be equal.',
+    'C07': ' Two directly created zones sharing one processor, both created before either is used, resolve local times like zones with processors of their own.',
+    'C09': ' Lookups by absent names (before, between, after the entries), ids and indices on the shipped registries and on registries of 0..9 entries run under ASan with an alarm.',
+    'C10': ' In the second round each manager is first handed the zone through createForZoneInfo (registry bypass) and uses it.',
+    'C11': ' The recorded source is compiled after a decoy of itself (same names, two extra links) in one process: generated links are exactly the reported ones and each is declared in the source; every key of the shipped Python map holds the record of that name, every record is listed once.',
+    'C12': ' The synthetic product source is also compiled for 1990..2040 and every one of its zones must be emitted in extended scope; untilYear is compared with the source lines.',
+    'C13': ' Every model edge is also replayed with the clock set through setup() (value from the backup clock) and through forceSync() (value from a reference clock).',
+    'C15': ' Every prefix also goes through the flash-string overloads; manual-zone date-times over 1873..2127 must parse back to the same fields and offset.',
+    'C17': ' incrementHour(period, limit) on the whole (limit, hour) product against IncMod; the one-day date helpers on every day against the calendar; each helper leaves the other fields alone.',
+    'C19': ' Several generators alive in one process: each data set holds exactly its own zones and items.',
+}
+for _pid, _x in EXTRA4.items():
+    _c = CLAIMS[_pid]
+    CLAIMS[_pid] = (_c[0], _c[1], _c[2] + _x, _c[3], _c[4])
+
 def main():
     props = [json.loads(l) for l in open(os.path.join(VERIF, 'properties.jsonl'))]
     checks = []
